@@ -171,7 +171,7 @@ pick_colliding_uids(void)
 }
 
 /* ---------------- events ---------------- */
-enum {E_ADD, E_CANCEL, E_TICK_ONTIME, E_TICK_IDLE, E_TICK_LATE, E_EXIT, E_LIST, E_SCHED, E_ADDOWN, E_ADD2, E_TICK_EXACT, E_TICK_FAIL, E_STOP, E_TICKX, E_ADDGONE};
+enum {E_ADD, E_CANCEL, E_TICK_ONTIME, E_TICK_IDLE, E_TICK_LATE, E_EXIT, E_LIST, E_SCHED, E_ADDOWN, E_ADD2, E_TICK_EXACT, E_TICK_FAIL, E_STOP, E_TICKX, E_ADDGONE, E_ADDANON};
 struct ev_s {
 	int kind;
 	int user;	/* index into users[] */
@@ -250,6 +250,7 @@ evname(char *buf, size_t bsz, const struct ev_s *e)
 	case E_ADDOWN: snprintf(buf, bsz, "ADD(%u,%s,%s,owner=%s)", users[e->user], uids[e->uid], tpls[e->arg].name, e->arg2 == 1 ? "self" : e->arg2 == 2 ? "other" : e->arg2 == 3 ? "self-by-name" : e->arg2 == 4 ? "other-by-name" : "uid-without-passwd-entry"); break;
 	case E_ADD2: snprintf(buf, bsz, "ADD2(%u,%s+%s,%s)", users[e->user], uids[e->uid], uids[e->arg2], tpls[e->arg].name); break;
 	case E_ADDGONE: snprintf(buf, bsz, "ADD(%u,%s,%s; the client is gone before the reply)", users[e->user], uids[e->uid], tpls[e->arg].name); break;
+	case E_ADDANON: snprintf(buf, bsz, "ADD(peer 4242 whom the user data base does not know,%s,owner=%s)", uids[e->uid], e->arg2 == 0 ? "absent" : e->arg2 == 1 ? "1000" : "alice"); break;
 	case E_CANCEL: snprintf(buf, bsz, "CANCEL(%u,%s)", users[e->user], uids[e->uid]); break;
 	case E_TICK_ONTIME: snprintf(buf, bsz, "TICK(on-time)"); break;
 	case E_TICK_IDLE: snprintf(buf, bsz, "TICK(idle)"); break;
@@ -268,7 +269,7 @@ evname(char *buf, size_t bsz, const struct ev_s *e)
 static const char*
 evkind(const struct ev_s *e)
 {
-	static const char *const k[] = {"ADD", "CANCEL", "TICK-ontime", "TICK-idle", "TICK-late", "EXIT", "LIST", "SCHED", "ADDOWN", "ADD2", "TICK-exact", "TICK-spawnfail", "STOP", "TICK+EXIT", "ADD-client-gone"};
+	static const char *const k[] = {"ADD", "CANCEL", "TICK-ontime", "TICK-idle", "TICK-late", "EXIT", "LIST", "SCHED", "ADDOWN", "ADD2", "TICK-exact", "TICK-spawnfail", "STOP", "TICK+EXIT", "ADD-client-gone", "ADD-unknown-peer"};
 	return k[e->kind];
 }
 
@@ -386,6 +387,14 @@ enabled(struct ev_s *ev, int max)
 			}
 			if ((prop == 11 && !narrow) || (prop != 11 && m_find(uids[k]))) {
 				PUSH(E_CANCEL, u, k);
+			}
+		}
+		if (prop == 11 && u == 0) {
+			/* a peer whose uid the user data base does not know: whatever owner it names, nothing of it is accepted */
+			for (int k = 0; k < (narrow ? 1 : 2); k++) {
+				PUSH(E_ADDANON, 0, k, 0, 0);
+				PUSH(E_ADDANON, 0, k, 0, 1);
+				if (!narrow) PUSH(E_ADDANON, 0, k, 0, 2);
 			}
 		}
 		if (prop == 11 && narrow) {
@@ -620,6 +629,18 @@ apply(const struct ev_s *e)
 					break;
 				}
 			}
+		}
+		break;
+	}
+	case E_ADDANON: {
+		size_t o = (size_t)snprintf(req, sizeof(req), "BEGIN:VCALENDAR\nVERSION:2.0\nMETHOD:PUBLISH\n");
+		o = mk_add(req, sizeof(req), uids[e->uid], &tpls[0], e->arg2 == 0 ? "" : e->arg2 == 1 ? "X-ECHS-OWNER:1000\n" : "X-ECHS-OWNER:alice\n", o);
+		o += (size_t)snprintf(req + o, sizeof(req) - o, "END:VCALENDAR\n");
+		hx_request(&rp, 4242, req, o);
+		/* model: nothing changes; the table is compared below */
+		if (rp.nsucc != 0 || rp.nfail != 1) {
+			snprintf(shape, sizeof(shape), "%s/%s", k, rp.nsucc + rp.nfail != 1 ? "count" : "accepted");
+			report("reply", shape, "request of a peer unknown to the user data base: %d success / %d failure replies, expected one failure", rp.nsucc, rp.nfail);
 		}
 		break;
 	}
